@@ -171,31 +171,33 @@ Section Content.
   Hypothesis P_lf : is_ml = true -> forall X p d,
       P (mkIn (x0a :: X) p d) = Ok [x0a] (after [x0a] X p d).
 
-  Lemma content_step b s0 T p d :
-    utf8_valid_b (b :: s0) = true -> (is_ml = true -> byte_eqb b x22 = false) -> hstop T ->
+  Lemma content_step b s0 :
+    utf8_valid_b (b :: s0) = true -> (is_ml = true -> byte_eqb b x22 = false) ->
     exists c1 s1 e1,
       b :: s0 = c1 ++ s1 /\ length s1 < length (b :: s0) /\ e1 <> [] /\
       enc is_ml 0 (b :: s0) = e1 ++ enc is_ml 0 s1 /\ utf8_valid_b s1 = true /\
-      P (mkIn (enc is_ml 0 (b :: s0) ++ T) p d) = Ok c1 (after e1 (enc is_ml 0 s1 ++ T) p d).
+      forall T p d, hstop T ->
+        P (mkIn (enc is_ml 0 (b :: s0) ++ T) p d) = Ok c1 (after e1 (enc is_ml 0 s1 ++ T) p d).
   Proof.
-    intros Hu Hq HT.
+    intros Hu Hq.
     (* a single escaped byte *)
     assert (Hone : forall e, e <> [] -> (b2n b <= 127)%N ->
               enc is_ml 0 (b :: s0) = e ++ enc is_ml 0 s0 ->
-              (forall X, P (mkIn (e ++ X) p d) = Ok [b] (after e X p d)) ->
+              (forall X p d, P (mkIn (e ++ X) p d) = Ok [b] (after e X p d)) ->
               exists c1 s1 e1,
                 b :: s0 = c1 ++ s1 /\ length s1 < length (b :: s0) /\ e1 <> [] /\
                 enc is_ml 0 (b :: s0) = e1 ++ enc is_ml 0 s1 /\ utf8_valid_b s1 = true /\
-                P (mkIn (enc is_ml 0 (b :: s0) ++ T) p d) = Ok c1 (after e1 (enc is_ml 0 s1 ++ T) p d)).
+                forall T p d, hstop T ->
+                  P (mkIn (enc is_ml 0 (b :: s0) ++ T) p d) = Ok c1 (after e1 (enc is_ml 0 s1 ++ T) p d)).
     { intros e He Hb Henc HP. exists [b], s0, e. repeat split; auto.
       - rewrite utf8_cons_ascii in Hu by exact Hb. exact Hu.
-      - rewrite Henc, <- app_assoc. apply HP. }
+      - intros T p d _. rewrite Henc, <- app_assoc. apply HP. }
     destruct (byte_eqb b x22) eqn:E22.
     { destruct is_ml eqn:Eml; [specialize (Hq eq_refl); discriminate|].
       apply byte_eqb_eq in E22. subst b.
       destruct quote_escape_spec as [Q1 [Q2 Q3]].
       apply (Hone [x5c; x22]); [discriminate|vm_compute; discriminate|reflexivity|].
-      intro X. cbn [app]. rewrite (P_simple x22 _ X p d Q1 Q3), Q2. reflexivity. }
+      intros X p d. cbn [app]. rewrite (P_simple x22 _ X p d Q1 Q3), Q2. reflexivity. }
     destruct (short_escape is_ml b) as [c|] eqn:Es.
     { destruct (short_escape_spec is_ml b c Es) as [S1 [S2 S3]].
       apply (Hone [x5c; c]); [discriminate| |cbn [enc]; rewrite E22, Es; reflexivity|].
@@ -203,7 +205,7 @@ Section Content.
         destruct (byte_eqb b x08) eqn:E1; [byten; lia|]. destruct (byte_eqb b x09) eqn:E2; [byten; lia|].
         destruct (byte_eqb b x0a) eqn:E3; [byten; lia|]. destruct (byte_eqb b x0c) eqn:E4; [byten; lia|].
         destruct (byte_eqb b x0d) eqn:E5; [byten; lia|]. destruct (byte_eqb b x5c) eqn:E6; [byten; lia|]. discriminate.
-      - intro X. cbn [app]. rewrite (P_simple c _ X p d S1 S3), S2. reflexivity. }
+      - intros X p d. cbn [app]. rewrite (P_simple c _ X p d S1 S3), S2. reflexivity. }
     destruct (byte_eqb b x0a) eqn:E0a.
     { assert (Eml : is_ml = true).
       { unfold short_escape in Es. destruct (byte_eqb b x08); [discriminate|]. destruct (byte_eqb b x09); [discriminate|].
@@ -211,13 +213,13 @@ Section Content.
       apply byte_eqb_eq in E0a. subst b.
       apply (Hone [x0a]); [discriminate|vm_compute; discriminate| |].
       - cbn [enc]. rewrite Es. reflexivity.
-      - intro X. cbn [app]. apply P_lf. exact Eml. }
+      - intros X p d. cbn [app]. apply P_lf. exact Eml. }
     destruct (is_ctrl b) eqn:Ec.
     { apply (Hone (u_escape b)).
       - unfold u_escape. discriminate.
       - byten. lia.
       - cbn [enc]. rewrite E22, Es, E0a, Ec. reflexivity.
-      - intro X. apply P_hex. exact Ec. }
+      - intros X p d. apply P_hex. exact Ec. }
     (* a plain chunk *)
     assert (Hp : plain b = true).
     { unfold plain. rewrite Ec, E22. cbn. unfold short_escape in Es.
@@ -237,7 +239,7 @@ Section Content.
     - discriminate.
     - exact Henc.
     - tauto.
-    - rewrite Henc, <- app_assoc. apply P_plain; [discriminate|exact Hall|tauto|].
+    - intros T p d HT. rewrite Henc, <- app_assoc. apply P_plain; [discriminate|exact Hall|tauto|].
       apply enc_head_stop; assumption.
   Qed.
 
@@ -259,8 +261,8 @@ Section Content.
       assert (Hb : is_ml = true -> byte_eqb b x22 = false).
       { intro E. specialize (Hq E). cbn [forallb] in Hq. apply andb_true_iff in Hq as [Hq _].
         destruct (byte_eqb b x22); [discriminate|reflexivity]. }
-      destruct (content_step b s0 T p d Hu Hb HT) as [c1 [s1 [e1 [Hs [Hl [He1 [Henc [Hu1 HP]]]]]]]].
-      destruct fuel as [|f]; [lia|]. cbn [chunks_f]. rewrite HP.
+      destruct (content_step b s0 Hu Hb) as [c1 [s1 [e1 [Hs [Hl [He1 [Henc [Hu1 HP]]]]]]]].
+      destruct fuel as [|f]; [lia|]. cbn [chunks_f]. rewrite (HP T p d HT).
       unfold after. cbn [rest].
       assert (Hlen : Nat.eqb (length (enc is_ml 0 s1 ++ T)) (length (enc is_ml 0 (b :: s0) ++ T)) = false).
       { apply Nat.eqb_neq. rewrite Henc. rewrite !app_length. destruct e1; [congruence|]. cbn [length]. lia. }
